@@ -16,9 +16,12 @@ import time
 import traceback
 import warnings
 
-DEPS = os.path.join(os.path.dirname(os.path.dirname(os.path.abspath(__file__))), ".deps")
-if os.path.isdir(DEPS) and DEPS not in sys.path:
-    sys.path.insert(0, DEPS)
+# atheris lives beside the framework (setup.sh installs it into <checkout>/.deps); a snapshot of the committed
+# files may be run from another directory, so /verif/.deps is looked at too
+for DEPS in (os.path.join(os.path.dirname(os.path.dirname(os.path.abspath(__file__))), ".deps"), "/verif/.deps"):
+    if os.path.isdir(DEPS) and DEPS not in sys.path:
+        sys.path.insert(0, DEPS)
+        break
 
 
 def main():
